@@ -24,7 +24,9 @@ Two monitors, both executing the repository's code on generated inputs:
   object must be the sign-adjusted (min: +, max: -) vectors of exactly the trials recorded at that
   rung plus the new one as last row. Priorities of ``FixedObjectivePriority`` and
   ``LinearScalarizationPriority`` are recomputed independently. A twin scheduler with all modes
-  'min' fed the negated columns must take the same decisions. For non-dominated-sort priorities the
+  'min' fed the negated columns must take the same decisions. Result dicts list the metrics in generated key orders (per trial / per report, interleaved with the
+  resource attribute and extra keys); the reference takes the objective vector by metric name, and a twin fed
+  the same reports in canonical key order must take the same decisions. For non-dominated-sort priorities the
   decision is additionally confronted with the Pareto layers themselves: if *every* ranking that puts
   earlier layers before later ones gives the new trial the same verdict, MOASHA must give that verdict.
 """
@@ -53,7 +55,9 @@ RULE = (
     "rf in {2,3,4,2.5}, grace 1..3, max_t 1..30, 1..3 brackets, mode None/'min'/'max'/list, priority "
     "default/NonDominated(dim)/Fixed/Linear(weights), 1..8 workers, 3..40 trials, arrival policy uniform / "
     "round-robin / starve-one / burst, eager or lazy suggest, integer-grid or continuous objective tables, "
-    "early completions). Distinct = digest of the (trial, level, decision) sequence; non-trivial = at least "
+    "early completions; report dicts in canonical key order, all reversed, a fixed shuffled order per trial, or "
+    "re-shuffled per report with the resource attribute and extra keys interleaved; per-objective scales/offsets so "
+    "that permuted coordinates change the vector). Distinct = digest of the (trial, level, decision) sequence; non-trivial = at least "
     "one rung decision with recorded entries."
 )
 ASSUMPTIONS = [
@@ -66,6 +70,8 @@ ASSUMPTIONS = [
     "rank-rule verdicts use the priority vector the priority object returned; the Pareto-layer clause is "
     "only decided when every layer-consistent ranking agrees on the verdict",
     "priority recomputation tolerance: 16 eps relative to the largest |weighted objective| of the row",
+    "a trial's objective vector is defined by metric NAME in the order of the ``metrics`` argument; the key order "
+    "of a result dict (and extra keys in it) carries no meaning",
 ]
 CASE_TIMEOUT = 60
 
@@ -117,6 +123,13 @@ def floors(tier):
         "decided:priority_recomputed:linear": 400 if q else 10000,
         "decided:pareto_forced_verdict": 500 if q else 12000,
         "brackets>=2_used": 100 if q else 2500,
+        # report dicts whose metric key order differs from the ``metrics`` argument / between trials
+        "reports_with_noncanonical_key_order": 8000 if q else 200000,
+        "decided:rung_rank_noncanonical_key_order": 2000 if q else 50000,
+        "decided:rung_rank_mixed_key_orders_at_rung": 1500 if q else 40000,
+        "decided:rung_rank_key_order_sensitive": 2000 if q else 50000,
+        "decided:rung_rank_key_order_changes_pareto_layers": 1000 if q else 25000,
+        "decided:key_order_twin_decisions": 8000 if q else 200000,
     }
 
 
@@ -489,9 +502,48 @@ def _moasha_params(spec):
         "early": rng.choice([0.0, 0.0, 0.3, 0.6]),
         "time_attr": rng.choice(["epoch", "step", "training_iteration"]),
     }
+    # how the training script lays out its report dict, and per-objective scales / offsets (so that a
+    # permutation of coordinates changes the vector and, typically, its Pareto layer). Drawn from a
+    # separate generator; explicit reproducer specs ("override") keep the plain layout unless they say otherwise.
+    rng2 = random.Random(spec["seed"] * 977 + 3)
+    r = rng2.random()
+    P["key_order"] = "canonical" if r < 0.3 else "reversed_all" if r < 0.4 else "per_trial" if r < 0.7 else "per_report"
+    P["col_affine"] = [[1, 0]] * d
+    if rng2.random() < 0.6:
+        P["col_affine"] = [[rng2.choice([1, 3, 10, 100]), rng2.choice([0, 0, 5, -7, 40])] for _ in range(d)]
+    if "override" in spec:
+        P["key_order"], P["col_affine"] = "canonical", [[1, 0]] * d
     P.update(spec.get("override", {}))
     P["metrics"] = METRIC_NAMES[: P["d"]]
+    if len(P["col_affine"]) != P["d"]:
+        P["col_affine"] = [[1, 0]] * P["d"]
     return P
+
+
+EXTRA_KEYS = [("st_worker_time", 12.5), ("elapsed_time", 3.0), ("note", "x"), ("accuracy_not_optimized", 0.5), ("st_worker_iter", 4)]
+
+
+def _result_dict(P, spec, tid, level, t, raw, canonical):
+    """The report as a dict, and the order (indices into ``metrics``) in which its metric keys appear.
+    The objective vector is defined by metric NAME; the key order of a report is the script's business."""
+    names, ta, d = P["metrics"], P["time_attr"], P["d"]
+    mode = "canonical" if canonical else P["key_order"]
+    if mode == "canonical":
+        res = {ta: t}
+        res.update(zip(names, raw))
+        return res, tuple(range(d))
+    if mode == "reversed_all":
+        perm = list(range(d))[::-1]
+        items = [(names[k], raw[k]) for k in perm] + [(ta, t)]
+        return dict(items), tuple(perm)
+    krng = random.Random(spec["seed"] * 1009 + tid * 9176 + (level * 31 if mode == "per_report" else 0) + 7)
+    perm = list(range(d))
+    krng.shuffle(perm)
+    items = [(names[k], raw[k]) for k in perm]
+    items.insert(krng.randint(0, len(items)), (ta, t))
+    for extra in krng.sample(EXTRA_KEYS, krng.randint(0, 2)):
+        items.insert(krng.randint(0, len(items)), extra)
+    return dict(items), tuple(perm)
 
 
 def _signs(P):
@@ -527,7 +579,8 @@ def _curve(P, spec, tid, n_levels):
             cols.append([max(0, b - lv // k) for lv in range(n_levels)])
         else:
             cols.append([1.5] * n_levels)
-    return [[c[k] for c in cols] for k in range(n_levels)]
+    aff = P.get("col_affine") or [[1, 0]] * len(cols)
+    return [[c[k] * aff[j][0] + aff[j][1] for j, c in enumerate(cols)] for k in range(n_levels)]
 
 
 _REC_CLASSES = {}
@@ -616,7 +669,7 @@ class _Violated(Exception):
     pass
 
 
-def _drive(o, P, spec, sched, calls, script, judge, signs, table_signs):
+def _drive(o, P, spec, sched, calls, script, judge, signs, table_signs, canonical_keys=False):
     """Run one schedule. ``script`` None => generate actions with the case's policy (and return them).
     ``judge`` => run the oracles. ``table_signs`` multiplies the table columns (twin run)."""
     from syne_tune.backend.trial_status import Trial
@@ -724,9 +777,10 @@ def _drive(o, P, spec, sched, calls, script, judge, signs, table_signs):
             level = ti["level"]
             t = level + off
             raw = [v * s for v, s in zip(ti["curve"][level - 1], table_signs)]
-            result = {ta: t}
-            result.update(dict(zip(P["metrics"], raw)))
-            svec = [v * s for v, s in zip(raw, signs)]
+            result, korder = _result_dict(P, spec, tid, level, t, raw, canonical_keys)
+            svec = [v * s for v, s in zip(raw, signs)]  # by metric name, in the order of ``metrics``
+            if judge and korder != tuple(range(P["d"])):
+                o.count("reports_with_noncanonical_key_order")
             bidx = ti["bidx"]
             # reference expectation
             if t >= max_t:
@@ -746,9 +800,9 @@ def _drive(o, P, spec, sched, calls, script, judge, signs, table_signs):
             decisions.append((tid, level, dec))
             if judge:
                 o.ev("report", tid, level, raw, "->", dec, exp[0], exp[1])
-                _judge_report(o, P, exp, dec, t, svec, raw, signs, recorded.get((bidx, exp[1]), []), new_calls, inv_rf)
+                _judge_report(o, P, exp, dec, t, svec, raw, signs, recorded.get((bidx, exp[1]), []), new_calls, inv_rf, korder)
             if exp[1] is not None:
-                recorded.setdefault((bidx, exp[1]), []).append((tid, svec))
+                recorded.setdefault((bidx, exp[1]), []).append((tid, svec, korder))
             # protocol
             if dec == STOP:
                 call("on_trial_remove", sched.on_trial_remove, ti["trial"])
@@ -770,7 +824,7 @@ def _drive(o, P, spec, sched, calls, script, judge, signs, table_signs):
     return actions, decisions, aborted
 
 
-def _judge_report(o, P, exp, dec, t, svec, raw, signs, entries, new_calls, inv_rf):
+def _judge_report(o, P, exp, dec, t, svec, raw, signs, entries, new_calls, inv_rf, korder=None):
     kind = exp[0]
     base = {"time": t, "max_t": P["max_t"], "rf": P["rf"], "decision": dec}
     if kind == "max_t":
@@ -799,6 +853,15 @@ def _judge_report(o, P, exp, dec, t, svec, raw, signs, entries, new_calls, inv_r
     d = P["d"]
     Mref = np.array([e[1] for e in entries] + [svec], dtype=float).reshape(n, d)
     wit = dict(base, rung=exp[1], n=n, matrix_expected=Mref.tolist(), prio=P["prio"], mode=P["mode"])
+    # key order of the metric names in each report that makes up this rung (new trial last)
+    ident = tuple(range(d))
+    korders = [(e[2] if len(e) > 2 else ident) for e in entries] + [korder if korder is not None else ident]
+    Mperm = np.array([[row[k] for k in ko] for row, ko in zip(Mref.tolist(), korders)], dtype=float).reshape(n, d)
+    noncanon = any(ko != ident for ko in korders)
+    mixed = len(set(korders)) > 1
+    sensitive = bool((Mperm != Mref).any())  # reading the vectors in report order would change the matrix
+    if noncanon:
+        wit["metric_key_order_of_each_report"] = [list(ko) for ko in korders]
     if not new_calls:
         _violate(o, "rung_rank_rule", "rung_decision_without_priority_evaluation", wit)
         p_used = None
@@ -821,9 +884,15 @@ def _judge_report(o, P, exp, dec, t, svec, raw, signs, entries, new_calls, inv_r
                 wit,
             )
         else:
+            if noncanon:
+                o.count("decided:matrix_rows_noncanonical_key_order", int(sum(ko != ident for ko in korders)))
+            if sensitive:
+                o.count("decided:matrix_key_order_sensitive")
             if not (M2[-1] == Mref[-1]).all():
                 unsigned = np.array(raw, dtype=float)
-                if has_max and (M2[-1] == unsigned).all():
+                if korders[-1] != ident and (M2[-1] == Mperm[-1]).all():
+                    mech = "objective_matrix:coordinates_follow_report_key_order_not_metrics_argument"
+                elif has_max and (M2[-1] == unsigned).all():
                     mech = "objective_matrix:mode_sign_not_applied"
                 elif any((M2[i] == Mref[-1]).all() for i in range(n - 1)):
                     mech = "objective_matrix:new_trial_is_not_last_row"
@@ -831,7 +900,10 @@ def _judge_report(o, P, exp, dec, t, svec, raw, signs, entries, new_calls, inv_r
                     mech = "objective_matrix:new_trial_row_differs"
                 _violate(o, "mode_signs_and_rung_entries", mech, wit)
             elif sorted(map(tuple, M2[:-1].tolist())) != sorted(map(tuple, Mref[:-1].tolist())):
-                _violate(o, "rung_entries", "objective_matrix:recorded_rows_differ_from_history", wit)
+                if noncanon and sorted(map(tuple, M2[:-1].tolist())) == sorted(map(tuple, Mperm[:-1].tolist())):
+                    _violate(o, "rung_entries", "objective_matrix:recorded_rows_follow_report_key_order_not_metrics_argument", wit)
+                else:
+                    _violate(o, "rung_entries", "objective_matrix:recorded_rows_differ_from_history", wit)
     # --- independent priorities for the scalar kinds
     p_ref, scale = _recompute_priorities(P, Mref)
     if p_ref is not None:
@@ -869,6 +941,15 @@ def _judge_report(o, P, exp, dec, t, svec, raw, signs, entries, new_calls, inv_r
         o.count("decided:rung_rank_with_tied_priority")
     o.count("rung_outcome:" + str(dec))
     o.count("rung_rank:" + P["prio"]["kind"])
+    if noncanon:
+        o.count("decided:rung_rank_noncanonical_key_order")
+    if mixed:
+        o.count("decided:rung_rank_mixed_key_orders_at_rung")
+    if sensitive:
+        o.count("decided:rung_rank_key_order_sensitive")
+        lay_p = ref.layer_numbers(Mperm)
+        if (lay_p != ref.layer_numbers(Mref)).any():
+            o.count("decided:rung_rank_key_order_changes_pareto_layers")
     if dec != expected:
         mech = "rank_rule:" + (
             "stopped_although_rank_within_best_fraction" if expected == CONTINUE else "continued_although_rank_outside_best_fraction"
@@ -941,10 +1022,26 @@ def _run_moasha(spec, o):
                     {"first_difference_at": k, "with_modes": decisions[max(0, k - 2): k + 1],
                      "all_min_on_negated": dec2[max(0, k - 2): k + 1], "mode": P["mode"], "prio": P["prio"]},
                 )
+        # twin: the same reports with every result dict in canonical key order must be decided alike
+        if P["key_order"] != "canonical" and P["d"] >= 2 and not aborted:
+            np.random.seed(spec["seed"] % (2**32))
+            calls3 = []
+            sched3, _ = _make_scheduler(P, P["mode"], calls3)
+            _, dec3, _ = _drive(o, P, spec, sched3, calls3, actions, False, signs, [1] * P["d"], canonical_keys=True)
+            o.count("decided:key_order_twin_decisions", len(decisions))
+            o.count("key_order_twin_schedules")
+            if dec3 != decisions:
+                k = next((i for i, (a, b) in enumerate(zip(decisions, dec3)) if a != b), min(len(decisions), len(dec3)))
+                _violate(o,
+                    "objective_vector_by_metric_name",
+                    "key_order_twin:decisions_differ_from_same_reports_in_canonical_key_order",
+                    {"first_difference_at": k, "as_reported": decisions[max(0, k - 2): k + 1],
+                     "canonical_key_order": dec3[max(0, k - 2): k + 1], "key_order": P["key_order"], "prio": P["prio"]},
+                )
     o.set_sig(["moasha", decisions], nontrivial=n_rank >= 1)
     o.sample = {
         "params": {k: P[k] for k in ("d", "rf", "grace", "max_t", "brackets", "mode", "prio", "n_workers", "n_trials",
-                                     "policy", "p_start", "col_kinds", "t_offset", "early")},
+                                     "policy", "p_start", "col_kinds", "t_offset", "early", "key_order", "col_affine")},
         "first_events": [list(x) for x in decisions[:12]],
         "n_reports": len(decisions),
         "rung_rank_decisions": n_rank,
